@@ -533,6 +533,48 @@ def rule_10(ctx):
     ctx.note(f'{n} operand pairs evaluated')
 
 
+SPELT_NUMBERS = ['1e+22', '1E+22', '2.5e+0', '1e22', '-1e+7', ' 3 ', '+3', '3.', '.5', '2.5e-3', '1E3', '1e+3', '007', '1.50', '1.5E+3', '-0', '12e-1']
+TEXT_FORMS = [1.23456789e-08, 1.5e-16, 0.000123456789012345, -3e-20, 1e+22, 1234.5678, 5, 0.5, -2.25, 123456789012345678, 2.5e-07, 1e-15, 0]
+
+
+def rule_11(ctx):
+    """A whole witness workbook, interpreted as written: texts that spell a number (plain, signed, padded, with a decimal point at
+    either end, in scientific notation with and without a sign in the exponent) mean that number wherever a number is expected;
+    numbers of every magnitude used where a text is expected are their text form, and that text reads back as the same number."""
+    from . import workbook as W
+    from . import scenarios as S
+    anchor = ctx.mod('xlfunctions.func_xltypes').func('Text.__number__')
+    books = []
+    cells, want = {}, {}
+    for i, t in enumerate(SPELT_NUMBERS, start=1):
+        try:
+            v = int(t)
+        except ValueError:
+            v = float(t)
+        cells.update({f'A{i}': t, f'B{i}': f'=A{i}+0', f'C{i}': f'=ABS(A{i})', f'D{i}': f'=2*A{i}', f'E{i}': f'=MOD(A{i},7)', f'F{i}': f'=-A{i}',
+                      f'G{i}': f'="{t}"+0', f'H{i}': f'=SQRT(A{i}*A{i})'})
+        want.update({f'B{i}': v, f'C{i}': abs(v), f'D{i}': 2 * v, f'E{i}': v % 7, f'F{i}': -v, f'G{i}': v, f'H{i}': abs(v)})
+    books.append((cells, want))
+    cells, want = {}, {}
+    for i, v in enumerate(TEXT_FORMS, start=1):
+        t = str(v)
+        cells.update({f'N{i}': v, f'O{i}': f'=N{i}&""', f'P{i}': f'=LEN(N{i})', f'Q{i}': f'=(N{i}&"")+0', f'R{i}': f'=LEFT(N{i},40)',
+                      f'S{i}': f'="<"&N{i}&">"', f'T{i}': f'=EXACT(N{i},O{i})', f'U{i}': f'=UPPER(N{i})', f'V{i}': f'=(0+N{i})&""'})
+        want.update({f'O{i}': ('Text', t), f'P{i}': len(t), f'Q{i}': v, f'R{i}': ('Text', t), f'S{i}': ('Text', '<' + t + '>'), f'T{i}': True,
+                     f'U{i}': ('Text', t.upper()), f'V{i}': ('Text', t)})
+    books.append((cells, want))
+    for cells, want in books:
+        wb = W.Workbook(ctx, cells)
+        for a, w in want.items():
+            got = wb.value('Sheet1!' + a)
+            src = cells[a[0].replace(a[0], 'A' if a[0] < 'N' else 'N') + a[1:]]
+            ctx.expect(S.same(got, w) and (not isinstance(w, (int, float)) or isinstance(w, bool) or (isinstance(got, tuple) and got[1] == w)), anchor,
+                       f'spellings: {cells[a]} over {src!r}',
+                       f'{a} = {cells[a]} with {("A" if a[0] < "N" else "N") + a[1:]} = {src!r} evaluates to {got!r}, expected {w!r}: a text that spells a number is that '
+                       'number in every numeric position, and a number in a text position is its text form - for every spelling and magnitude')
+    ctx.floor(220, 'spelling cells')
+
+
 RULES = [
     ('C08.1', 'annotations are coercing aliases', rule_1),
     ('C08.2', 'cast table', rule_2),
@@ -544,4 +586,5 @@ RULES = [
     ('C08.8', 'division by a converted zero gives #DIV/0! for every spelling', rule_8),
     ('C08.9', 'numeric arguments: every spelling of a value gives the same outcome (through the registered wrapper)', rule_9),
     ('C08.10', 'arithmetic operators and & on every pair of scalar operand kinds (through the registered wrapper)', rule_10),
+    ('C08.11', 'spellings of numeric text and text forms of numbers in a witness workbook', rule_11),
 ]
